@@ -63,8 +63,12 @@ VisibleKeys(st, t) == {k \in AllKeys : Visible(st, k, t)}
 Item(k, r) == [key |-> k, data |-> r.data, cr |-> r.cr, mo |-> r.mo, exp |-> r.exp, rel |-> r.rel, sec |-> r.sec, cj |-> r.cj]
 
 \* ---------------------------------------------------------------- operations and results (uniform shapes)
+\* ok / ox: the Always... option of the interface the call goes through ("none", "sec" AlwaysMakeSecret, "cj"
+\* AlwaysMakeCrownjewel, "abs" AlwaysSetAbsoluteExpiry = ox (absolute time), "rel" AlwaysSetRelativateExpiry = ox seconds)
 Op(name, k, data, m, form, pfx, cond, x, batch) ==
-    [op |-> name, k |-> k, data |-> data, m |-> m, form |-> form, pfx |-> pfx, cond |-> cond, x |-> x, batch |-> batch]
+    [op |-> name, k |-> k, data |-> data, m |-> m, form |-> form, pfx |-> pfx, cond |-> cond, x |-> x, batch |-> batch,
+     ok |-> "none", ox |-> 0]
+WithOpt(o, kind, x) == [o EXCEPT !.ok = kind, !.ox = x]
 KeyOp(name, k)  == Op(name, k, <<>>, NoMeta, "", <<>>, NoCondition, 0, <<>>)
 PlainOp(name)   == KeyOp(name, <<>>)
 PutOp(name, k, data, m, form) == Op(name, k, data, m, form, <<>>, NoCondition, 0, <<>>)
@@ -87,9 +91,23 @@ Concretize(o, t) ==
               !.x = IF o.op = "SetAbsoluteExpiry" THEN AbsExp(@, t) ELSE @,
               !.batch = [j \in 1..Len(o.batch) |-> [o.batch[j] EXCEPT !.m = [@ EXCEPT !.exp = AbsExp(@, t)]]]]
 
-RECURSIVE ApplyBatch(_, _, _)
-ApplyBatch(st, b, t) == IF b = <<>> THEN st
-                        ELSE ApplyBatch([st EXCEPT ![b[1].k] = Stored(b[1].data, b[1].m, t)], Tail(b), t)
+\* The interface's Always... option is applied to every record written through it, *before* the call's own change of
+\* the metadata (so an explicit Delete / SetAbsoluteExpiry / ... of the call wins) and after the metadata was brought
+\* up to date.  "All saved records get an absolute expiry / a relative expiry / the flag."  A relative expiry set this
+\* way takes effect at once or at the next save (as for SetRelativeExpiry).  late = that choice.
+ApplyOpt(r, o, t, late) ==
+    CASE o.ok = "sec" -> [r EXCEPT !.sec = TRUE]
+      [] o.ok = "cj"  -> [r EXCEPT !.cj = TRUE]
+      \* (a record that is marked deleted stays as it is: an expiry option must not bring it back)
+      [] o.ok = "abs" -> IF r.del THEN r ELSE [r EXCEPT !.exp = o.ox, !.rel = 0]
+      [] o.ok = "rel" -> IF r.del THEN r ELSE [r EXCEPT !.rel = o.ox, !.exp = IF late THEN @ ELSE t + o.ox]
+      [] OTHER -> r
+Lates(o) == IF o.ok = "rel" THEN BOOLEAN ELSE {FALSE}
+
+RECURSIVE ApplyBatch(_, _, _, _, _)
+ApplyBatch(st, b, t, o, late) ==
+    IF b = <<>> THEN st
+    ELSE ApplyBatch([st EXCEPT ![b[1].k] = ApplyOpt(Stored(b[1].data, b[1].m, t), o, t, late)], Tail(b), t, o, late)
 
 \* records a query (prefix, condition) must / may select: visible, key starts with the prefix, fields satisfy
 \* the condition; between the two lie the records with leaves on which the two accessors differ
@@ -101,20 +119,23 @@ Between(lo, hi) == {lo \cup x : x \in SUBSET (hi \ lo)}
 PurgeExtra(st, pfx, c, t) == {k \in AllKeys : st[k].present /\ ~st[k].del /\ Expired(st[k], t) /\ IsPrefix(pfx, k) /\ MayMatch(c, st[k].data)}
 
 OnVisible(st, o, t, new) == IF Visible(st, o.k, t) THEN {Out(ROk, [st EXCEPT ![o.k] = n]) : n \in new} ELSE {Out(RErr("notfound"), st)}
+\* the stored record brought up to date and with the interface option applied: what the call's own change starts from
+Pre(st, o, t) == {ApplyOpt(Touch(st[o.k], t), o, t, late) : late \in Lates(o)}
 
 StepAt(st, o, t) ==
-  CASE o.op = "Put"    -> {Out(ROk, [st EXCEPT ![o.k] = Stored(o.data, o.m, t)])}
-    [] o.op = "PutNew" -> {Out(ROk, [st EXCEPT ![o.k] = Stored(o.data, MetaIn(0, 0, FALSE, 0, o.m.sec, o.m.cj), t)])}
+  CASE o.op = "Put"    -> {Out(ROk, [st EXCEPT ![o.k] = ApplyOpt(Stored(o.data, o.m, t), o, t, late)]) : late \in Lates(o)}
+    [] o.op = "PutNew" -> {Out(ROk, [st EXCEPT ![o.k] = ApplyOpt(Stored(o.data, MetaIn(0, 0, FALSE, 0, o.m.sec, o.m.cj), t), o, t, late)])
+                           : late \in Lates(o)}
     [] o.op = "Get"    -> IF Visible(st, o.k, t) THEN {Out(R("nil", TRUE, 0, 0, {Item(o.k, st[o.k])}), st)}
                           ELSE {Out(RErr("notfound"), st)}
     [] o.op = "Exists" -> {Out(R("nil", Visible(st, o.k, t), 0, 0, {}), st)}
-    [] o.op = "Delete" -> OnVisible(st, o, t, {[Touch(st[o.k], t) EXCEPT !.del = TRUE, !.rel = 0]})
-    [] o.op = "SetAbsoluteExpiry" -> OnVisible(st, o, t, {[Touch(st[o.k], t) EXCEPT !.exp = o.x, !.rel = 0]})
-    [] o.op = "SetRelativeExpiry" -> OnVisible(st, o, t, { [st[o.k] EXCEPT !.mo = t, !.rel = o.x, !.exp = t + o.x],
-                                                           [Touch(st[o.k], t) EXCEPT !.rel = o.x] })
-    [] o.op = "MakeSecret"     -> OnVisible(st, o, t, {[Touch(st[o.k], t) EXCEPT !.sec = TRUE]})
-    [] o.op = "MakeCrownJewel" -> OnVisible(st, o, t, {[Touch(st[o.k], t) EXCEPT !.cj = TRUE]})
-    [] o.op = "PutMany" -> {Out(ROk, ApplyBatch(st, o.batch, t)), Out(RErr("notimpl"), st)}
+    [] o.op = "Delete" -> OnVisible(st, o, t, {[r EXCEPT !.del = TRUE, !.rel = 0] : r \in Pre(st, o, t)})
+    [] o.op = "SetAbsoluteExpiry" -> OnVisible(st, o, t, {[r EXCEPT !.exp = o.x, !.rel = 0] : r \in Pre(st, o, t)})
+    [] o.op = "SetRelativeExpiry" -> OnVisible(st, o, t, {[r EXCEPT !.rel = o.x, !.exp = t + o.x] : r \in Pre(st, o, t)}
+                                                         \cup {[r EXCEPT !.rel = o.x] : r \in Pre(st, o, t)})
+    [] o.op = "MakeSecret"     -> OnVisible(st, o, t, {[r EXCEPT !.sec = TRUE] : r \in Pre(st, o, t)})
+    [] o.op = "MakeCrownJewel" -> OnVisible(st, o, t, {[r EXCEPT !.cj = TRUE] : r \in Pre(st, o, t)})
+    [] o.op = "PutMany" -> {Out(ROk, ApplyBatch(st, o.batch, t, o, late)) : late \in Lates(o)} \cup {Out(RErr("notimpl"), st)}
     [] o.op = "Purge"   -> {Out(RErr("notimpl"), st)} \cup
                            { Out(R("nil", FALSE, Cardinality(T), Cardinality(T) + Cardinality(PurgeExtra(st, o.pfx, o.cond, t)), {}),
                                  [k \in AllKeys |-> IF k \in T THEN [st[k] EXCEPT !.del = TRUE, !.rel = 0] ELSE st[k]])
@@ -170,7 +191,9 @@ OpLaws(st, ops, t) == \A o \in ops : LET X == StepAt(st, o, t) IN
             /\ \A k \in AllKeys \ {o.k} : x.st[k] = st[k]
             /\ x.st[o.k].data = o.data /\ x.st[o.k].mo = t
             /\ LET G == StepAt(x.st, KeyOp("Get", o.k), t) IN
-                 \A g \in G : IF (o.op = "Put" /\ (o.m.del \/ (o.m.rel = 0 /\ o.m.exp # 0 /\ o.m.exp < t)))
+                 \A g \in G : IF o.ok \in {"abs", "rel"} /\ ~(o.op = "Put" /\ o.m.del)
+                              THEN TRUE      \* the option replaces the writer's expiry (see below)
+                              ELSE IF (o.op = "Put" /\ (o.m.del \/ (o.m.rel = 0 /\ o.m.exp # 0 /\ o.m.exp < t)))
                               THEN g.res.err = "notfound"
                               ELSE g.res.err = "nil" /\ \A i \in g.res.items : i.data = o.data /\ i.key = o.k
     \* deleted and expired records are gone, for Get, Exists and every query
@@ -184,4 +207,12 @@ OpLaws(st, ops, t) == \A o \in ops : LET X == StepAt(st, o, t) IN
     \* a batch is the sequence of its puts
     /\ o.op = "PutMany" => \E x \in X : x.res.err = "nil" /\ \A j \in 1..Len(o.batch) :
             (\A j2 \in (j + 1)..Len(o.batch) : o.batch[j2].k # o.batch[j].k) => x.st[o.batch[j].k].data = o.batch[j].data
+    \* whatever is written through an interface with an Always... option carries that option afterwards (an explicit
+    \* expiry call of its own excepted), and a deleted record stays deleted
+    /\ (o.op \in {"Put", "PutNew"} /\ o.ok = "sec") => \A x \in X : x.st[o.k].sec
+    /\ (o.op \in {"Put", "PutNew"} /\ o.ok = "cj") => \A x \in X : x.st[o.k].cj
+    /\ (o.op \in {"Put", "PutNew", "MakeSecret", "MakeCrownJewel", "Delete"} /\ o.ok = "abs" /\ ~(o.op = "Put" /\ o.m.del)) =>
+            \A x \in X : x.res.err = "nil" => (x.st[o.k].exp = o.ox /\ x.st[o.k].rel = 0)
+    /\ (o.op \in {"Put", "PutNew", "MakeSecret", "MakeCrownJewel"} /\ o.ok = "rel" /\ ~(o.op = "Put" /\ o.m.del)) =>
+            \A x \in X : x.res.err = "nil" => x.st[o.k].rel = o.ox
 ====
